@@ -95,7 +95,7 @@ func specGenuineER6(s *icmpDriver, p *packets.FrameParser, t uint8) bool {
 //@ ensures[ext.ok]     ret1 == nil ==> ret0 != nil && fresh(ret0) && len(icmpInfo.Payload) >= 8 && (icmpInfo.Payload[0] == 128 || icmpInfo.Payload[0] == 129)
 //@ ensures[ext.val]    ret1 == nil ==> int(ret0.Identifier) == int(be16(icmpInfo.Payload, 4)) && int(ret0.SeqNumber) == int(be16(icmpInfo.Payload, 6))
 //@ ensures[ext.compl]  len(icmpInfo.Payload) >= 8 && icmpInfo.Payload[0] == 128 ==> ret1 == nil
-//@ ensures[ext.class]  ret1 != nil ==> !chain(ret1, *common.ReceiveProbeNoPktError) && !chain(ret1, *common.BadPacketError)
+//@ ensures[ext.class]  ret1 != nil ==> noRepoErr(ret1)
 //@ modifies nothing
 
 //@ func (*icmpDriver).findMatchingProbe
@@ -112,7 +112,7 @@ func specGenuineER6(s *icmpDriver, p *packets.FrameParser, t uint8) bool {
 //@ requires[pre.past]    forall(k, 0, 256, s.sentProbes[k] <= now())
 //@ ensures[C01.rtt.ok]   (ret1 == nil) == (specInRange(s, relSeq) && specSent(s, relSeq))
 //@ ensures[C05.rtt.val]  ret1 == nil ==> ret0 >= 0 && ret0 == now() - s.sentProbes[relSeq]
-//@ ensures[C09.rtt.class] ret1 != nil ==> !chain(ret1, *common.ReceiveProbeNoPktError) && !chain(ret1, *common.BadPacketError)
+//@ ensures[C09.rtt.class] ret1 != nil ==> noRepoErr(ret1)
 //@ modifies s.mu, ghost clock
 
 //@ func (*icmpDriver).handleProbeLayers
